@@ -174,6 +174,21 @@ def all_mutants(g, text, toks, samples):
 LINECOL = re.compile(r"line (\d+):(\d+)")
 
 
+_FILE_DIR = []
+
+
+def _file_dir():
+    if not _FILE_DIR:
+        import atexit
+
+        _FILE_DIR.append(tempfile.mkdtemp(prefix="bbv-c10-"))
+        atexit.register(shutil.rmtree, _FILE_DIR[0], ignore_errors=True)
+    return _FILE_DIR[0]
+
+
+FIRST_CHARS = ["\ufeff", "\ufffe", "\x00", "\u200b", "\xa0", "\x0c", "\u2060", "\x1a"]
+
+
 def check_text(ctx, text, tags=(), base=None, via_load=False):
     import blackbird
     from blackbird.error import BlackbirdSyntaxError
@@ -189,21 +204,25 @@ def check_text(ctx, text, tags=(), base=None, via_load=False):
     del Syn.calls[:]
     prog = exc = None
     if via_load:
-        d = tempfile.mkdtemp(prefix="bbv-c10-")
-        path = os.path.join(d, "s.xbb")
-        try:
-            with open(path, "w", encoding="utf-8", newline="") as f:
-                f.write(text)
+        # a handful of fixed paths per worker, written again and again: what load() returns must depend on what the
+        # file holds now, not on what the same path held at an earlier load
+        d = _file_dir()
+        path = os.path.join(d, "s%d.xbb" % (int(hashlib.sha1(text.encode("utf-8", "surrogatepass")).hexdigest()[:4], 16) % 3))
+        if base is not None and base != text:
             try:
-                prog = blackbird.load(path)
-            except Exception as e:
-                exc = e
-        finally:
-            try:
-                os.unlink(path)
-                os.rmdir(d)
-            except OSError:
+                with open(path, "w", encoding="utf-8", newline="") as f:
+                    f.write(base)
+                blackbird.load(path)
+                ctx.observe("load() of a path that held another (grammatical) text at the previous load")
+            except Exception:   # the base may be ill-formed beyond the grammar; only the sequence matters here
                 pass
+            del Syn.calls[:]
+        with open(path, "w", encoding="utf-8", newline="") as f:
+            f.write(text)
+        try:
+            prog = blackbird.load(path)
+        except Exception as e:
+            exc = e
     else:
         try:
             prog = blackbird.loads(text)
@@ -339,6 +358,12 @@ def run(ctx):
         for (kind, t) in mutants(rng, g, base, toks, samples, 6):
             check_text(ctx, t, tags=[kind], base=base, via_load=rng.random() < 0.1 and encodable(t))
             done += 1
+            if rng.random() < 0.05:
+                # an unusual character (byte-order mark, NUL, zero-width space, ...) as the very first character
+                ch = rng.choice(FIRST_CHARS)
+                t3 = ch + (base if rng.random() < 0.7 else t)
+                check_text(ctx, t3, tags=["first-char:%04x" % ord(ch)], base=base, via_load=rng.random() < 0.6 and encodable(t3))
+                done += 1
             if rng.random() < 0.08:
                 # the same text with a uniform left margin of spaces on every line (1-3 and 5 spaces are skipped by the
                 # lexer; exactly four are an indentation token)
